@@ -69,6 +69,14 @@ func auxRaceC10() int {
 					c2.Run(context.Background())
 					c2.Interrupt = z80.NMIInterrupt()
 					c2.Run(context.Background())
+					// mode 0 and mode 2 acceptance
+					for kind := 2; kind < c10IsoReqKinds; kind++ {
+						c3 := z80.CPU{Memory: mem, IO: io}
+						c3.PC, c3.SP, c3.IFF1 = 0x0100, 0xF000, true
+						c3.IM, c3.Interrupt = c10IsoReq(kind, t%2)
+						c3.Step()
+						c3.Step()
+					}
 				}
 			}(t)
 		}
